@@ -7,12 +7,15 @@ EXTENDS Gate, VerifierGen
 Gens == {"dbc", "can_c", "cpp", "nop"}
 Catalogue == { t \in Trees : /\ Len(t.impls) <= 1 /\ t.devices = <<>>
                              /\ (t.enums = <<>> \/ t.enums[1].name = "A" \/ Len(t.enums[1].items) = 2) }
+SmallCatalogue == { t \in Catalogue : Len(t.structs) = 2 /\ t.structs[1].fields = <<Fd("x", 0, 8)>> /\ t.enums = <<>> /\ t.structs[2].name = "B" /\ Len(t.structs[2].fields) = 1 }
 Dirs == { <<>>, [old |-> "x"], [p1 |-> "x"], [p1 |-> "x", oldc |-> "y"] }
 F(p, c) == [path |-> p, contents |-> c]
 FileLists == { <<>>, <<F("p1", "a")>>, <<F("p1", "a"), F("p2", "b")>>, <<F("p1", "x")>>, <<F("p1", "a"), F("p1", "b")>> }
 
 Init == \E g \in Gens : \E t \in Catalogue : \E d \in Dirs : GInit(g, t, d)
-Next == \/ Verify \/ ReturnErr \/ PluginRefuse \/ WriteFile \/ ReturnOk
+Calls == Cardinality(registered)
+Next == \/ Register \/ Verify \/ ReturnErr \/ PluginRefuse \/ WriteFile \/ ReturnOk
         \/ \E fl \in FileLists : \E cl \in {{}, {"oldc"}} : (cl = {} \/ gen = "can_c") /\ PluginGenerate(fl, cl \cap DOMAIN fs)
-Spec == Init /\ [][Next]_gvars
+NextAll == Next \/ (\E g \in Gens : \E t \in SmallCatalogue : \E d \in {<<>>, [p1 |-> "x"]} : g \notin registered /\ Calls < 2 /\ NewCall(g, t, d))
+Spec == Init /\ [][NextAll]_gvars
 =============================================================================
